@@ -21,7 +21,13 @@ def main():
     patch = os.path.join(src, 'patch%s.diff' % k)
     demo = os.path.join(src, 'demo%s.py' % k)
     note = os.path.join(src, 'note%s.txt' % k)
-    dest = os.path.join(VERIF, 'seeded', '%s-%s' % (pid, k))
+    # next free index for this property (a second batch for the same property gets <ID>-3, <ID>-4, …)
+    idx = 1
+    while os.path.exists(os.path.join(VERIF, 'seeded', '%s-%d' % (pid, idx))):
+        idx += 1
+    if '--overwrite' in sys.argv:
+        idx = int(k)
+    dest = os.path.join(VERIF, 'seeded', '%s-%d' % (pid, idx))
     tmp = tempfile.mkdtemp(prefix='vseed-', dir='/tmp')
     ran = []
     try:
